@@ -194,6 +194,52 @@ class _Interp:
                     if isinstance(test.ops[0], ast.NotIn):
                         yes, no = no, yes
                     return yes, no
+        # VALUE[:k] == lit  /  lit == VALUE[:k]  /  VALUE.startswith(lit)
+        # (and the negations): the spellings whose image starts with lit
+        neg = False
+        t = test
+        while isinstance(t, ast.UnaryOp) and isinstance(t.op, ast.Not):
+            t, neg = t.operand, not neg
+        lit = recv = None
+        if isinstance(t, ast.Compare) and len(t.ops) == 1 and \
+                isinstance(t.ops[0], (ast.Eq, ast.NotEq)):
+            a, b = t.left, t.comparators[0]
+            if isinstance(const_str(a), bytes):
+                a, b = b, a
+            if isinstance(const_str(b), bytes) and isinstance(
+                    a, ast.Subscript) and isinstance(a.slice, ast.Slice) and \
+                    a.slice.lower is None and a.slice.step is None and \
+                    isinstance(a.slice.upper, ast.Constant) and \
+                    a.slice.upper.value == len(const_str(b)):
+                lit, recv = const_str(b), a.value
+                if isinstance(t.ops[0], ast.NotEq):
+                    neg = not neg
+        elif isinstance(t, ast.Call) and isinstance(t.func, ast.Attribute) \
+                and t.func.attr == 'startswith' and len(t.args) == 1 and \
+                isinstance(const_str(t.args[0]), bytes):
+            lit, recv = const_str(t.args[0]), t.func.value
+        if lit is not None:
+            v = self.eval(recv, env)
+            if isinstance(v, _Val):
+                classes = []
+                for c in lit:
+                    pre = v.preimage_bytes(c)
+                    if pre is None:
+                        classes = None
+                        break
+                    classes.append(pre)
+                if classes is not None:
+                    import re as _re
+                    pat = b''.join(
+                        b'[' + b''.join(_re.escape(bytes([x]))
+                                        for x in sorted(cl)) + b']'
+                        if cl else b'[^\\x00-\\xff]' for cl in classes)
+                    pref = Lang.from_regex(pat).concat(Lang.all_strings())
+                    yes = region.intersect(pref)
+                    no = region.intersect(pref.complement())
+                    if neg:
+                        yes, no = no, yes
+                    return yes, no
         raise AnalysisError('branch test outside the model: ' + unparse(test))
 
 
